@@ -1,12 +1,12 @@
 """C08 -- a delegation never outlives the lease its parent granted (ghost domains).
 
 API tier: checks/c08_api.py (Lease.tla delegation half on the real authority.Cache and
-the resolver's lease arithmetic).  The full-pipeline tier against scripted parent/child
-authoritative servers is merged here when present (checks/c08_pipeline.py).
+the resolver's lease arithmetic).  Pipeline tier: checks/c08_pipe.py (LeasePipe.tla
+scenarios played by scripted parent/child authoritative servers against the real
+edns+cache+resolver pipeline; oracle = the referral log the scripted parent served).
 """
-import importlib
-
 import c08_api
+import c08_pipe
 
 
 def run(ctx, replay):
@@ -14,12 +14,10 @@ def run(ctx, replay):
                        "real authority.Cache + resolver lease helpers under two virtual-clock mechanisms; distinct = "
                        "distinct action sequences; every recorded run validated by Trace_Lease with the property "
                        "invariants evaluated on the observed deadlines")
-    if replay and c08_api.run_replay(ctx, replay):
-        return
+    if replay:
+        if c08_api.run_replay(ctx, replay):
+            return
+        if c08_pipe.replay_pipe(ctx, replay):
+            return
     c08_api.run_api(ctx)
-    try:
-        pipe = importlib.import_module("c08_pipeline")
-    except ImportError:
-        pipe = None
-    if pipe is not None:
-        pipe.run_pipeline(ctx)
+    c08_pipe.run_pipe(ctx)
